@@ -1,0 +1,15 @@
+//go:build verif
+
+// Contracts for govc (see /verif/DESIGN.md). Comment-only file: no executable code.
+
+package db
+
+//@ property C11 C19
+// bk_has(b, k): bucket b holds a non-empty value under key k.
+//@ smt all (declare-fun bk_has (Iface Str) Bool)
+
+//@ func (b Bucket) Get(key) (v, err)
+//@   iface
+//@   trusted
+//@   pure
+//@   ensures err == nil ==> (len(v) > 0) == bk_has(b, str(key))
